@@ -69,7 +69,12 @@ def h(term, ty, n, t, c, owners, counts, seq=False):
         body += f"    model::begin({n}, {t}, {owners_literal(owners)}, 1);\n"
     par = f"v.into_par().num_threads({t}).chunk_size({c})" + chain(ty, counts)
     body += TERMINALS[term].format(par=par)
-    body += '    assert!(drops_all_once(), "a value was leaked or dropped twice (drop counter of some id is not 1 after the result was dropped)");\n'
+    body += "    let nid = HS.next_id.load(AO::Relaxed) as usize;\n"
+    slots = 3 * n + 2
+    body += f'    assert!(nid <= {slots}, "more values constructed than drop slots");\n'
+    for i in range(slots):
+        body += (f'    assert!({i} >= nid || HS.drops[{i}].load(AO::Relaxed) == 1, '
+                 f'"a value was leaked or dropped twice (its drop counter is not 1 after the result was dropped)");\n')
     body += f"    kani::cover!(HS.next_id.load(AO::Relaxed) as usize >= {n});\n"
     if owners == "sym":
         body += sched_covers(n, t)
@@ -91,7 +96,13 @@ def harnesses(tier, seed):
             hs.append(h("collect_x", ty, 2, 2, 1, [1, 0], cv))
             hs.append(h("collect_into_vec", ty, 2, 2, 1, [0, 1], cv))
         hs.append(h("collect_vec", "MF", 3, 2, 2, [1, 1, 0], (1, 0, 1)))
+        hs.append(h("collect_x", "MF", 2, 2, 2, [1, 1], (1, 1)))   # fewer chunks than workers
+        hs.append(h("collect_vec", "M", 2, 2, 2, [1, 1], (1, 1)))
         hs.append(h("collect", "MF", 2, 2, 1, [1, 0], (1, 1)))
+        # interleaved per-thread vectors (worker 0 holds positions 0 and 2) through the pinned-vec merge
+        hs.append(h("collect", "MF", 3, 2, 1, [0, 1, 0], (1, 1, 1)))
+        hs.append(h("collect_vec", "FMF", 3, 2, 1, [0, 1, 0], (1, 1, 1)))
+        hs.append(h("collect_into_split", "MF", 3, 2, 1, [1, 0, 1], (1, 1, 1)))
         hs.append(h("collect_into_split", "FMF", 2, 2, 1, [1, 0], (1, 1)))
         hs.append(h("collect_vec", "MF", 2, 1, 1, None, (1, 0)))
         for term, ty, cv in (("find", "E", (1, 1, 1)), ("find", "M", (1, 1, 1)), ("count", "MF", (1, 0, 1)), ("reduce", "M", (1, 1, 1)),
